@@ -15,6 +15,7 @@ import (
 	"os"
 	"path/filepath"
 	"regexp"
+	"sort"
 	"strconv"
 	"strings"
 
@@ -222,6 +223,32 @@ func renderGff(ref string, feats []vfeat) []byte {
 	return b.Bytes()
 }
 
+// sortGffRows puts the feature rows of a GFF3 into coordinate order (stable: rows with the same start keep their order),
+// the layout of most published GFF3 files; the rows of a spliced CDS are then separated by whatever starts between them.
+func sortGffRows(gff []byte) []byte {
+	var head, rows, tail []string
+	inTail := false
+	for _, l := range strings.SplitAfter(string(gff), "\n") {
+		switch {
+		case l == "":
+		case inTail || strings.HasPrefix(l, "##FASTA"):
+			inTail = true
+			tail = append(tail, l)
+		case strings.HasPrefix(l, "#"):
+			head = append(head, l)
+		default:
+			rows = append(rows, l)
+		}
+	}
+	start := func(l string) int {
+		f := strings.Split(l, "\t")
+		n, _ := strconv.Atoi(f[3])
+		return n
+	}
+	sort.SliceStable(rows, func(i, j int) bool { return start(rows[i]) < start(rows[j]) })
+	return []byte(strings.Join(head, "") + strings.Join(rows, "") + strings.Join(tail, ""))
+}
+
 // pairToSam derives the SAM record of a query from its row against the gapped reference row.
 func pairToSam(R, Q string, name string) (samRec, bool) {
 	type col struct{ r, q byte }
@@ -381,8 +408,11 @@ func runVarFam(vec map[string]interface{}) map[string]interface{} {
 	for _, x := range gList(vec, "runs") {
 		r := gMap(x)
 		anno, suffix := gb, "gb"
-		if gStr(r, "anno") == "gff" {
+		switch gStr(r, "anno") {
+		case "gff":
 			anno, suffix = gff, "gff"
+		case "gffs":
+			anno, suffix = sortGffRows(gff), "gff"
 		}
 		s, e := gIntD(r, "s", -1), gIntD(r, "e", -1)
 		agg := gBool(r, "agg")
